@@ -43,6 +43,24 @@ theorem update_forms_agree (xs ys : List UInt8) :
     fnvUpdate (fnvUpdate fnvInit xs) ys = fnvUpdate fnvInit (xs ++ ys) := by
   simp [Roll.update, fnvUpdate, List.foldl_append]
 
+/-- **C19 (histories).** one hasher fed any sequence of chunks (each through any update form — all
+    forms are the same fold) has, after every chunk, the closed-form value of all bytes so far -/
+theorem roll_history (cs : List (List UInt8)) :
+    (cs.foldl Roll.update Roll.new).value = rollSpec cs.flatten ∧
+    cs.foldl fnvUpdate fnvInit = fnvSpec cs.flatten := by
+  have h1 : ∀ (cs : List (List UInt8)) (r : Roll), cs.foldl Roll.update r = r.update cs.flatten := by
+    intro cs
+    induction cs with
+    | nil => intro r; rfl
+    | cons c cs ih => intro r; rw [List.foldl_cons, ih, List.flatten_cons]; simp [Roll.update, List.foldl_append]
+  have h2 : ∀ (cs : List (List UInt8)) (s : UInt8), cs.foldl fnvUpdate s = fnvUpdate s cs.flatten := by
+    intro cs
+    induction cs with
+    | nil => intro s; rfl
+    | cons c cs ih => intro s; rw [List.foldl_cons, ih, List.flatten_cons]; simp [fnvUpdate, List.foldl_append]
+  rw [h1, h2]
+  exact ⟨roll_closed_form _, fnv_eq_fnv1_low6 _⟩
+
 /-- states of the partial FNV hash stay below 64 (`invariant!` of `PartialFNVHash::value`) -/
 theorem fnv_state_lt (bs : List UInt8) : (fnvUpdate fnvInit bs).toNat < 64 := by
   rw [fnv_eq_fnv1_low6]
